@@ -132,6 +132,9 @@ func main() {
 		if _, loaded := prog.spkgs[lc.pkg]; !loaded {
 			continue
 		}
+		if lc.prop != "" && lc.prop != *prop {
+			continue
+		}
 		if !prog.initialiserContains(lc.pkg, lc.name, lc.text) {
 			fatalCheck(*prop, "contract-anchor: %s: initialiser of %s.%s no longer contains %q (an axiom was keyed to that literal)", lc.line, lc.pkg, lc.name, lc.text)
 		}
